@@ -7,6 +7,7 @@ assembly, status mapping and solution readers, temp-file lifecycle.  Stubbed: th
 import hashlib
 import os
 import subprocess as real_subprocess
+import tempfile
 import shutil as real_shutil
 import uuid as real_uuid
 
@@ -494,6 +495,10 @@ class SimEnv:
         os.mkdir(self.tmpdir)
         os.environ["TMPDIR"] = self.tmpdir
         os.environ.pop("TMP", None)
+        # Python's tempfile module caches its directory on first use: point it at the private directory
+        # for the duration of the run and restore it afterwards
+        self._saved_tempdir = tempfile.tempdir
+        tempfile.tempdir = self.tmpdir
         pulp_core.shutil = FakeShutil(self)
         pulp_core.uuid4 = self.uuid4
         pulp_coin.subprocess = FakeSubprocess(self, "cbc")
@@ -509,6 +514,7 @@ class SimEnv:
             os.environ["TMPDIR"] = tmpdir
         if tmp is not None:
             os.environ["TMP"] = tmp
+        tempfile.tempdir = self._saved_tempdir
         real_shutil.rmtree(self.tmpdir, ignore_errors=True)
         self.tmpdir = self.base_tmpdir
         return False
